@@ -45,10 +45,27 @@ Robustness round 3 (same obligations, recognised on more spellings):
   - RowPaths: private path accessors are transparent but the reader / callbacks stay opaque (`Paths::new(dir, &data.name).toml()`)
   - the TOML bytes may reach the write through views of the same text (`as_bytes`, `into_bytes`, `as_str` ...); a private
     read-and-parse helper in the reader is opened on its success payload (H.open_payload)
+Robustness round 4 (same obligations; one new: R4 writer/env-forwarded — the env handed to the writer is what it persists):
+  - R4 writer/*: stated on the writer's interprocedural effects with LayerEnv::write_to_layer_dir and the two replace
+    routines as vocabulary (guards_of / H.optional_guards over every level of the call chain, arguments substituted into
+    the writer's own terms): the switch may be looked at by an `if let`, a method of the switch type, a let-else in a
+    helper, a local closure; "metadata written" is a certain WRITE of <name>.toml by whichever routine
+  - R5 <row>/reread: the success payload of the returned value on the normal form H.unwrap_n + H.open_payload must *be* the
+    reader's result for this layer (H.top_calls: not a call buried in an argument), and nothing mutating may run after
+    it at any level of the call chain leading to it (H.levels_to) — write + re-read extracted into a helper, and_then chains
+  - R2 call-sites/*: several call sites of a callback are fine when at most one can run on every dispatch row, none repeats
+    and none lies outside the rows
+  - R3 <site>/env: "result.env, empty when absent" whatever the spelling of the default (H.env_or_default; a merged value
+    is accepted only when the empty env is built under `result.env is None`); the decision on the strategy is read at
+    every level between the handler and the writer call (lifted_args_ctx(with_path))
+  - H.VecEffects: `Vec::with_capacity(n)` starts empty; a grown Vec consumed by iter().try_for_each / for_each is the
+    loop over it; calling a local closure is calling its body; H.entries_scope: a delta's entries reached through a private
+    planning method of the delta; H.sbom_name_table: to_path_buf + push is join; H.delete_role: the delete routine is
+    validated on its effects (layer_roles finds it by a literal remove_file(<name>.toml) in its body)
 """
 from . import layer_env_common as L
 from . import C02_helpers as H
-from .lib.effects import Effects, Link, outcomes, MUTATING, REMOVING
+from .lib.effects import Effects, Link, outcomes, guards_of, MUTATING, REMOVING
 from .lib.guards import conditions
 from .lib.paths import sbom_formats_covered, LayerPaths, cls_str, strip
 from .lib.value import vstr, walk
@@ -308,6 +325,16 @@ def builder_fidelity(rep, prog, sl, E):
                 c = muts[0][3]
                 nm = c.res or c.decl or ''
                 args = [strip(sl.operand(f, a)) for a in c.args[1:]]
+                if (c.decl == 'std::iter::Extend::extend' or nm.endswith('::extend')) and len(c.args) == 2:
+                    # `xs.extend([x])` / `xs.extend(once(x))` is `xs.push(x)`; `map.extend([(k, v)])` is `map.insert(k, v)`
+                    # (a later entry for the same key wins either way): the iterated argument must decompose into exactly
+                    # one concrete, unfiltered element
+                    from .lib import iters
+                    al = iters.alts(sl, sl.operand(f, c.args[1]))
+                    if len(al) == 1 and al[0][1] is None and not al[0][2]:
+                        el = strip(al[0][0])
+                        args = [strip(x) for x in el[1]] if (el[0] == 'tuple' and len(pidx) > 1) else [el]
+                        nm = recv[0] + recv[1]
                 if not (nm.startswith(recv[0]) and nm.endswith(recv[1])):
                     rep.unproven('R7', key, where, 'LayerResultBuilder::%s changes `%s` through %s: not the plain %s the obligation is stated on'
                                  % (name, field, nm, recv[1].strip(':')))
@@ -341,6 +368,8 @@ def run(ctx, rep):
     E = H.VecEffects(prog, sl)
     hl = prog.fn(HL)
     rep.analysed(hl)
+    ROLES = dict(ROLES)
+    ROLES['DELETE'] = H.delete_role(E, ROLES, hl)     # validated on its effects (paths planned into a Vec first, ...)
     is_ld = lambda v: v[0] == 'field' and v[2] == 'layers_dir' and v[1][0] == 'param' and v[1][1] == HL and v[1][2] == 0
 
     def is_ln(v):
@@ -374,6 +403,7 @@ def run(ctx, rep):
         if r not in want_rows:
             rep.unproven('R1', 'row:' + r, hl.file, 'unrecognised decision row %s' % r)
     rep.extra['dispatch_table'] = {}
+    cb_occ = {}      # callback -> {row tag: (possible occurrences, certain occurrences, one of them can repeat?, call sites)}
     for r in want_rows:
         for idx, (o, dec) in enumerate(rows.get(r, [])):
             tag = '%s#%d' % (r, idx)
@@ -420,33 +450,77 @@ def run(ctx, rep):
                 bad = [e for e in may if (e.kind in DIR_TOUCH and kl(e) == ('DIR',)) or (kl(e) and kl(e)[0] == 'SBOM' and e.kind in MUTATING)]
                 rep.check(not bad, 'R1', tag + '/frame', where, 'layer dir and SBOMs untouched on keep',
                           'Keep arm can modify %s' % [(e.kind, cls_str(kl(e))) for e in bad[:3]])
+            # ---- how often each callback can run on this row (R2 call-sites/*) ----------------------------
+            for m in FALLIBLE_CBS:
+                def occ_of(effs):
+                    d = {}
+                    for q in effs:
+                        if q.kind == 'CALLBACK' and q.call is not None and cb_names([q]) == [m]:
+                            k = tuple((l.call.fn.path, l.call.bb) for l in (q.chain or ()) if isinstance(l, Link)) + ((q.call.fn.path, q.call.bb),)
+                            d[k] = d.get(k, False) or q.forall is not None or any(fp in prog.fns and prog.fns[fp].in_loop(bb) for fp, bb in k)
+                    return d
+                occ, sure = occ_of(o.may + o.must), occ_of(o.must)
+                cb_occ.setdefault(m, {})[tag] = (len(occ), len(sure), any(occ.values()), {k[-1] for k in occ})
             # ---- deepening: what the row carries -------------------------------------------------------
             row_carries(rep, prog, sl, E, LP, ROLES, r, tag, where, o, must, may)
             # ---- R5 ----------------------------------------------------------------------------------
             if r != 'migrate':
-                rc = find_call(o.value, RL)
-                ok = rc is not None and LP.classify(('call', 'std::path::Path::join', (rc[2][0], rc[2][1]))) == ('DIR',)
-                site = o.sites[-1]
-                after_ok = True
-                if rc is not None:
-                    fnp, bb = rc[3]
-                    sf = prog.fns[fnp]
-                    later = sf.reachable(bb) - {bb}
-                    for c in sf.calls:
-                        if c.bb in later:
-                            tmp = []
-                            E._expand_call(sf, c, None, 'may', {}, (), (sf.path,), tmp)
-                            if any(e.kind in MUTATING for e in tmp):
-                                after_ok = False
+                # the success payload of what is returned, on the normal form that does not depend on `?` / map_err /
+                # ok_or / a private write-then-re-read helper, is the reader's result for (LD, LN) ...
+                payload = H.open_payload(sl, H.unwrap_n(sl, o.value, 1, keep=OPAQUE()), keep=OPAQUE())
+                rcs = H.top_calls(payload, RL, OPAQUE())
+                rc = rcs[0] if len(rcs) == 1 else None
+                ok = rc is not None and len(rc[2]) >= 2 and LP.classify(('call', 'std::path::Path::join', (rc[2][0], rc[2][1]))) == ('DIR',)
+                # ... and nothing can mutate the layer after that read: at every level of the call chain leading to it,
+                # no call that can run after it has a mutating effect
+                after_ok, late = True, []
+                if rc is not None and len(rc) == 4 and rc[3]:
+                    levels = H.levels_to(o, RL, tuple(rc[3]))
+                    if levels is None:
+                        sf = prog.fns.get(rc[3][0])
+                        levels = [sf.call_at(rc[3][1])] if sf is not None and sf.path in {st.fn.path for st in o.sites} else None
+                    if not levels or any(c is None for c in levels):
+                        after_ok = False
+                        late.append('the call chain to the re-read was not found')
+                    else:
+                        for lc in levels:
+                            sf = lc.fn
+                            later = sf.reachable(lc.bb) - {lc.bb}
+                            for c in sf.calls:
+                                if c.bb in later:
+                                    tmp = []
+                                    E._expand_call(sf, c, None, 'may', {}, (), (sf.path,), tmp)
+                                    if any(e.kind in MUTATING for e in tmp):
+                                        after_ok = False
+                                        late.append('%s in %s' % ((c.name or '?').split('::')[-1], sf.path.split('::')[-1]))
                 rep.check(ok and after_ok, 'R5', tag + '/reread', where, 'returns read_layer(LD, LN) performed after the last mutation',
-                          'returned layer data is not a re-read of this layer after the last write: ' + vstr(o.value)[:160])
+                          'returned layer data is not a re-read of this layer after the last write%s: %s' % (' (%s)' % ', '.join(late[:2]) if late else '', vstr(payload)[:160]))
     # ---- R2 call-site counts ---------------------------------------------------------------------------
+    # "exactly once when due": one call site outside any loop is the simple case; with several call sites (the routine
+    # around the callback inlined into each arm, ...) the same follows when, on every dispatch row, at most one of them
+    # can run, none can repeat, and no call site exists that the dispatch does not account for
     callers = prog.callers()
-    for m in ('create', 'update', 'existing_layer_strategy', 'migrate_incompatible_metadata'):
+    for m in FALLIBLE_CBS:
         sites = [c for c in callers.get(T + m, []) if c.decl == T + m and c.fn.crate == 'libcnb']
-        ok = len(sites) == 1 and not sites[0].fn.in_loop(sites[0].bb)
-        rep.check(ok, 'R2', 'call-sites/' + m, sites[0].where() if sites else hl.file, 'Layer::%s: one call site, not in a loop' % m,
-                  'Layer::%s has %d call site(s)%s' % (m, len(sites), ' (in a loop)' if sites and sites[0].fn.in_loop(sites[0].bb) else ''))
+        looped = [c for c in sites if c.fn.in_loop(c.bb)]
+        swhere = sites[0].where() if sites else hl.file
+        if len(sites) <= 1 or looped:
+            ok = len(sites) == 1 and not looped
+            rep.check(ok, 'R2', 'call-sites/' + m, swhere, 'Layer::%s: one call site, not in a loop' % m,
+                      'Layer::%s has %d call site(s)%s' % (m, len(sites), ' (in a loop)' if looped else ''))
+            continue
+        per_row = cb_occ.get(m, {})
+        seen_sites = set().union(*[x[3] for x in per_row.values()]) if per_row else set()
+        stray = [c for c in sites if (c.fn.path, c.bb) not in seen_sites]
+        twice = sorted(t for t, x in per_row.items() if x[1] > 1 or x[2])
+        maybe = sorted(t for t, x in per_row.items() if x[0] > 1 and t not in twice)
+        if twice or stray:
+            rep.violated('R2', 'call-sites/' + m, swhere, 'Layer::%s has %d call sites; %s' % (m, len(sites), '; '.join(
+                ['it runs more than once on row(s) %s' % twice] * bool(twice) + ['%d of them outside the dispatch rows' % len(stray)] * bool(stray))))
+        elif maybe:
+            rep.unproven('R2', 'call-sites/' + m, swhere, 'Layer::%s has %d call sites and more than one of them can run on row(s) %s' % (m, len(sites), maybe))
+        else:
+            rep.holds('R2', 'call-sites/' + m, swhere, 'Layer::%s: %d call sites, at most one of them runs on any dispatch row, none in a loop' % (m, len(sites)))
     # ---- R3 forwarding ----------------------------------------------------------------------------------
     lr = prog.adt('libcnb::layer::trait_api::LayerResult')
     lr_fields = sorted(f['name'] for v in lr['variants'] for f in v['fields'])
@@ -455,10 +529,10 @@ def run(ctx, rep):
     seen_subj = {}
     kinds_seen = set()
     for c0 in wl_calls:
-        for f, c, a in H.lifted_args_ctx(E, c0, 'libcnb', stop_at=(hl.path,)):
-            rows3.append((f, c, a, c0))
+        for f, c, a, lpath in H.lifted_args_ctx(E, c0, 'libcnb', stop_at=(hl.path,), with_path=True):
+            rows3.append((f, c, a, c0, lpath))
     rep.floor('R3', 'writer_call_sites', len(rows3))
-    for f, c, a, c0 in rows3:
+    for f, c, a, c0, lpath in rows3:
         env, lcm, ex, sb = strip(a[2]), strip(a[3]), strip(a[4]), strip(a[5])
         if lcm[0] == 'call' and lcm[1] in prog.fns:
             # a private helper that only assembles the content metadata is transparent
@@ -483,9 +557,17 @@ def run(ctx, rep):
             m_ok = is_field_of_call(meta_v, 'metadata', cbname)
             used.add('metadata') if m_ok else None
             rep.check(m_ok, 'R3', subj + '/metadata', c.where(), 'metadata <- result.metadata', 'written metadata is not the callback result\'s: ' + vstr(meta_v)[:100])
-            e_ok = env[0] == 'call' and env[1].endswith('unwrap_or_default') and is_field_of_call(env[2][0], 'env', cbname)
+            # "the result's env, an empty one when it has none", however the default is spelled (H.env_or_default)
+            ex_src, ev = H.env_or_default(sl, env)
+            e_ok = ev == 'ok' and is_field_of_call(ex_src, 'env', cbname)
             used.add('env') if e_ok else None
-            rep.check(e_ok, 'R3', subj + '/env', c.where(), 'env <- result.env.unwrap_or_default()', 'written env is not the callback result\'s: ' + vstr(env)[:100])
+            if ev == 'unguarded' and is_field_of_call(ex_src, 'env', cbname):
+                used.add('env')      # consumed; whether always when present is the open question
+                rep.unproven('R3', subj + '/env', c.where(), 'the written env merges result.env and an empty env, but the empty one is not '
+                             'provably used only when the result has no env: ' + vstr(env)[:100])
+            else:
+                rep.check(e_ok, 'R3', subj + '/env', c.where(), 'env <- result.env.unwrap_or_default()',
+                          'written env is not the callback result\'s (or an empty one when it has none): ' + vstr(env)[:100])
             x_ok = ex[0] == 'agg' and ex[2] == 'Replace' and is_field_of_call(dict(ex[3])['0'], 'exec_d_programs', cbname)
             used.add('exec_d_programs') if x_ok else None
             rep.check(x_ok, 'R3', subj + '/exec_d', c.where(), 'exec.d <- Replace(result.exec_d_programs)', 'exec.d programs of the result are not forwarded: ' + vstr(ex)[:100])
@@ -496,8 +578,8 @@ def run(ctx, rep):
                       'LayerResult fields %s, forwarded %s' % (lr_fields, sorted(used)))
         else:
             # keep / replace-metadata: existing data, Keep/Keep
-            conds = [cd for cd in conditions(f, c.bb, sl) + (conditions(c0.fn, c0.bb, sl) if c0.fn.path != f.path else [])
-                     if cd.kind == 'variant' and cd.enum in (STRAT, MIGR)]
+            # the decision on the strategy / migration may sit at any level between the handler and the writer call
+            conds = [cd for cs in reversed(lpath) for cd in conditions(cs.fn, cs.bb, sl) if cd.kind == 'variant' and cd.enum in (STRAT, MIGR)]
             arm = next(iter(conds[-1].outcome)) if conds and len(conds[-1].outcome) == 1 else '?'
             subj = '%s/%s' % (subj, arm)
             rep.check(ex[0] == 'agg' and ex[2] == 'Keep' and sb[0] == 'agg' and sb[2] == 'Keep', 'R3', subj + '/switches', c.where(),
@@ -525,29 +607,53 @@ def run(ctx, rep):
             rep.unproven('R3', 'forwarding-subject/' + cbn, hl.file,
                          'no call of the layer writer is fed from the result of Layer::%s: what that row persists (env, exec.d, SBOMs) is not covered' % cbn)
     # ---- R4 switch semantics ------------------------------------------------------------------------------
+    # Stated on the writer's interprocedural effects with the four routines it composes as vocabulary (EW): *where* the
+    # switch is looked at (an `if let` in the writer, a `match` in a method of the switch type, a private helper around
+    # the env write) does not matter, only under which decisions — in the writer's own terms — each routine runs.
     wl = prog.fn(WL)
     rep.analysed(wl)
-    sites = [s.bb for s in E.sites(wl)]
-    must_names = [c.name for c, fa in E.must_calls(wl, sites)]
-    rep.check(ROLES['SHARED_WL'] in must_names and L.W_LAYER in must_names, 'R4', 'writer/always', '%s:%d' % (wl.file, wl.line),
-              'metadata and env are written on every success path', 'metadata/env write is conditional: %s' % [n.split('::')[-1] for n in must_names])
-    for callee, enum, pidx in ((ROLES['REPLACE_SBOMS'], 'libcnb::layer::trait_api::handling::Sboms', 5),
-                               (ROLES['REPLACE_EXECD'], 'libcnb::layer::trait_api::handling::ExecDPrograms', 4)):
-        cs = [c for c in wl.calls if c.name == callee]
+    wwhere = '%s:%d' % (wl.file, wl.line)
+    EW = H.VecEffects(prog, sl, vocab={k: v for k, v in ((L.W_LAYER, ('W_ENV', 1)), (ROLES['REPLACE_SBOMS'], ('R_SBOMS', None)),
+                                                         (ROLES['REPLACE_EXECD'], ('R_EXECD', None))) if k})
+    lpw = LayerPaths(lambda v: v[0] == 'param' and v[1] == wl.path and v[2] == 0, lambda v: v[0] == 'param' and v[1] == wl.path and v[2] == 1)
+    w_must = EW.expand(wl, 'must')
+    w_may = EW.expand(wl, 'may')
+    for e in w_may:
+        if e.call is not None:
+            rep.analysed(e.call.fn)
+    # "the metadata is written" = a certain write of <layers_dir>/<name>.toml (by whichever routine; what it contains is
+    # R3 <row>/toml-*), "the env is written" = a certain call of LayerEnv::write_to_layer_dir
+    must_kinds = ['W_META' if (e.kind == 'WRITE' and e.path is not None and lpw.classify(e.path) == ('TOML',)) else e.kind for e in w_must]
+    rep.check('W_META' in must_kinds and 'W_ENV' in must_kinds, 'R4', 'writer/always', wwhere,
+              'metadata and env are written on every success path', 'metadata/env write is conditional: certain effects of the writer are %s' % must_kinds)
+    # what the writer hands to the env writer is the env it was given, for this layer's directory
+    for e in [q for q in w_must if q.kind == 'W_ENV'][:1]:
+        ev = H.peel_views(e.args[0]) if e.args else ('unknown',)
+        ok = ev[0] == 'param' and ev[1] == wl.path and ev[2] == 2 and len(e.args) > 1 and lpw.classify(e.args[1]) == ('DIR',)
+        rep.check(ok, 'R4', 'writer/env-forwarded', e.where(), 'the env given to the writer is written to <layers_dir>/<name>',
+                  'the writer persists env %s at %s' % (vstr(ev)[:60], vstr(e.args[1])[:80] if len(e.args) > 1 else '?'))
+    for kind, enum, pidx in (('R_SBOMS', 'libcnb::layer::trait_api::handling::Sboms', 5),
+                             ('R_EXECD', 'libcnb::layer::trait_api::handling::ExecDPrograms', 4)):
         short = {5: 'replace_layer_sboms', 4: 'replace_layer_exec_d_programs'}[pidx]
-        if len(cs) != 1:
-            rep.violated('R4', 'writer/' + short, '%s:%d' % (wl.file, wl.line), '%d call sites of %s in the writer' % (len(cs), short))
+        chains = {}
+        for e in w_may:
+            if e.kind == kind and e.call is not None:
+                chains.setdefault(tuple((l.call.fn.path, l.call.bb) for l in e.chain if isinstance(l, Link)) + ((e.call.fn.path, e.call.bb),), e)
+        if len(chains) != 1:
+            (rep.unproven if chains else rep.violated)('R4', 'writer/' + short, wwhere, '%d call sites of %s reached from the writer' % (len(chains), short))
             continue
-        c = cs[0]
-        conds = [cd for cd in conditions(wl, c.bb, sl) if cd.kind == 'variant' and cd.enum == enum]
-        g_ok = bool(conds) and conds[-1].outcome == frozenset({'Replace'}) and strip(conds[-1].subject) == ('param', WL, pidx, wl.local_name(pidx + 1))
-        rep.check(g_ok, 'R4', 'writer/%s/guard' % short, c.where(), 'runs exactly on Replace', '%s is not guarded by the Replace variant of its switch' % short)
-        pv = strip(sl.operand(wl, c.args[2]))
-        p_ok = pv[0] == 'field' and pv[2] == '0' and pv[1][0] == 'variant' and pv[1][2] == 'Replace' and strip(pv[1][1])[2] == pidx
-        rep.check(p_ok, 'R4', 'writer/%s/payload' % short, c.where(), 'replaces with the Replace payload', 'replacement data is %s' % vstr(pv)[:80])
+        e = next(iter(chains.values()))
+        gs = guards_of(EW, e)
+        sw = [(cd, subj) for cd, views, subj in gs if cd.kind == 'variant' and cd.enum == enum]
+        is_switch = lambda v: v is not None and strip(v)[0] == 'param' and strip(v)[1] == wl.path and strip(v)[2] == pidx
+        g_ok = bool(sw) and sw[-1][0].outcome == frozenset({'Replace'}) and is_switch(sw[-1][1])
+        rep.check(g_ok, 'R4', 'writer/%s/guard' % short, e.where(), 'runs exactly on Replace', '%s is not guarded by the Replace variant of its switch' % short)
+        pv = strip(e.args[2]) if e.args and len(e.args) > 2 else ('unknown',)
+        p_ok = pv[0] == 'field' and pv[2] == '0' and pv[1][0] == 'variant' and pv[1][2] == 'Replace' and is_switch(pv[1][1])
+        rep.check(p_ok, 'R4', 'writer/%s/payload' % short, e.where(), 'replaces with the Replace payload', 'replacement data is %s' % vstr(pv)[:80])
         # nothing but the switch decides whether the replace routine runs (`Replace(vec![])` must still wipe the old set)
-        extra = [cd for cd in H.optional_conditions(E, wl, c.bb) if not (cd.kind == 'variant' and cd.enum == enum)]
-        rep.check(not extra, 'R4', 'writer/%s/only-switch' % short, c.where(), 'Replace(x) always runs the replace routine, whatever x is',
+        extra = [cd for cd, views, subj in H.optional_guards(EW, e) if not (cd.kind == 'variant' and cd.enum == enum and is_switch(subj))]
+        rep.check(not extra, 'R4', 'writer/%s/only-switch' % short, e.where(), 'Replace(x) always runs the replace routine, whatever x is',
                   '%s is skipped under a further condition: %s' % (short, [repr(cd) for cd in extra][:2]))
     # replace really replaces
     rs = prog.fn(ROLES['REPLACE_SBOMS'])
@@ -566,7 +672,7 @@ def run(ctx, rep):
         coll = strip(e.forall)
         fmtv = strip(lp.classify(e.path)[1])
         c1, p1 = L.loop_element(fmtv)
-        c2, p2 = L.loop_element(e.args[1])
+        c2, p2 = L.loop_element(H.peel_views(e.args[1]))     # `&sbom.data` / `sbom.data.as_slice()`: the same bytes
         w_ok = coll[0] == 'param' and coll[2] == 2 and c1 == coll and p1 == ('format',) and c2 == coll and p2 == ('data',)
     rep.check(w_ok, 'R4', 'replace_sboms/write-each', '%s:%d' % (rs.file, rs.line), 'every given SBOM is written to the path of its own format with its own data',
               'SBOM write loop does not write (format, data) of each element')
